@@ -514,6 +514,20 @@ impl Sim {
             messages.push(m);
         }
         let request = pb::PublishRequest { topic: topic.to_string(), messages };
+        let conn = self.conn.borrow().as_ref().map(|ch| PublisherClient::new(ch.clone()).max_decoding_message_size(64 * 1024 * 1024).max_encoding_message_size(64 * 1024 * 1024));
+        if let Some(mut cc) = conn {
+            return self
+                .unary(
+                    client,
+                    Req::Publish { topic: topic.to_string(), tokens, data_hash: dh, data_len: dl, attrs_hash: ah, attrs_len: al },
+                    abandon_at,
+                    cancel,
+                    HANG_LIMIT,
+                    async move { cc.publish(request).await },
+                    |r: pb::PublishResponse| Resp::Published(r.message_ids),
+                )
+                .await;
+        }
         self.unary(
             client,
             Req::Publish { topic: topic.to_string(), tokens, data_hash: dh, data_len: dl, attrs_hash: ah, attrs_len: al },
